@@ -159,6 +159,10 @@ func rpGen(r *rng.R, id int) *rpProject {
 				if strings.HasPrefix(l, "output:package") || strings.HasPrefix(l, "output:file ../") || strings.HasPrefix(l, "output:file @cwd") {
 					continue
 				}
+				if c.Vars && strings.HasPrefix(l, "output:file") {
+					// the init() of a variables block only compiles inside the declaring package
+					continue
+				}
 				keep = append(keep, l)
 			}
 			c.Lines = keep
